@@ -251,7 +251,7 @@ func checkC02(p *Program, r *Report) {
 			return true
 		})
 	}
-	r.Floor("C02.exhaustive", 12)
+	r.Floor("C02.exhaustive", 6)
 	r.Floor("C02.canon", 3)
 
 	c02guards(p, r, scope)
@@ -630,7 +630,7 @@ func c02checksum(p *Program, r *Report) {
 		}
 		r.Add("C02.checksum", FnName(da), fmt.Sprintf("accepting return #%d follows a verified checksum", i+1), ap.Ret.Pos(), ok, how)
 	}
-	r.Floor("C02.checksum", 8)
+	r.Floor("C02.checksum", 4)
 }
 
 // decoderVerifiesChecksum: every accept point of fn is checksum-guarded, either
